@@ -6,6 +6,11 @@ the fragment is evaluated on a few small, well-chosen inputs and the result is c
 from . import hir
 
 
+import re
+
+_FLOAT = re.compile(r'^Float\("([^"]*)"')
+
+
 class NoEval(Exception):
     pass
 
@@ -60,8 +65,32 @@ def _is_opt(v):
 
 
 class Interp:
-    def __init__(self, fuel=20000):
+    def __init__(self, fuel=20000, facts=None, inline=None):
         self.fuel = fuel
+        self.facts = facts        # when given, calls of functions of the analysed crate are interpreted from their HIR (if `inline(key)` allows it)
+        self.inline = inline
+        self.depth = 0
+
+    def local_call(self, key, argvals):
+        f = self.facts['fns'][key]
+        if self.depth >= 6:
+            raise NoEval('call depth')
+        if len(f['params']) != len(argvals):
+            raise NoEval('arity of %s' % key)
+        env = {}
+        for p, a in zip(f['params'], argvals):
+            if not self.bind(p, a, env):
+                raise NoEval('parameter pattern of %s' % key)
+        self.depth += 1
+        try:
+            return self.ev(f['hir'], env)
+        except _Return as r:
+            return r.v
+        finally:
+            self.depth -= 1
+
+    def _inlinable(self, c):
+        return self.facts is not None and c in self.facts['fns'] and (self.inline is None or self.inline(c))
 
     def tick(self):
         self.fuel -= 1
@@ -126,6 +155,11 @@ class Interp:
         while e is not None and (e.get('k') == 'AddrOf' or (e.get('k') == 'Unary' and e['op'] == 'Deref') or (e.get('k') == 'Block' and not e['stmts'] and e['expr'] is not None)):
             e = e['e'] if e.get('k') != 'Block' else e['expr']
         k = e.get('k')
+        rb_ = hir.range_bounds(e) if k in ('Struct', 'Call') else None
+        if rb_ is not None and rb_[0] is not None and rb_[1] is not None:
+            lo_, hi_ = self.ev(rb_[0], env), self.ev(rb_[1], env)
+            if isinstance(lo_, int) and isinstance(hi_, int):
+                return list(range(lo_, hi_ + (1 if rb_[2] else 0)))
         if k == 'Lit':
             v = hir.lit_int(e)
             if v is not None:
@@ -136,6 +170,9 @@ class Interp:
             s = hir.lit_str(e)
             if s is not None:
                 return s
+            m_ = _FLOAT.match(e.get('v') or '')
+            if m_:
+                return float(m_.group(1))
             raise NoEval('literal')
         if k == 'Path':
             r = e['res']
@@ -291,6 +328,10 @@ class Interp:
             return ('ctor', fnode['res'].get('path'), tuple(self.ev(x, env) for x in e['args']))
         if c in getattr(self, 'host_fns', {}):
             return self.host_fns[c]([self.ev(x, env) for x in e['args']])
+        if getattr(self, 'host_call', None) is not None:
+            r_ = self.host_call(c, e, lambda: [self.ev(x, env) for x in e['args']])
+            if r_ is not NotImplemented:
+                return r_
         if c.endswith(('Vec::<T>::new', 'Vec::new', 'VecDeque::<T>::new')) or (c.endswith('::new') and ('Vec<' in (e.get('ty') or ''))):
             return []
         if c.endswith('with_capacity') and 'Vec' in (e.get('ty') or '') + c:
@@ -313,6 +354,8 @@ class Interp:
             fn = self.ev(f, env)
             if callable(fn):
                 return fn(*[self.ev(x, env) for x in e['args']])
+        if self._inlinable(c):
+            return self.local_call(c, [self.ev(x, env) for x in e['args']])
         raise NoEval('call %s' % c)
 
     def method(self, e, env):
@@ -322,6 +365,10 @@ class Interp:
 
         def A(i=0):
             return self.ev(args[i], env)
+        if getattr(self, 'host_method', None) is not None:
+            r_ = self.host_method(e.get('callee') or '', nm, recv, lambda: [self.ev(x, env) for x in args])
+            if r_ is not NotImplemented:
+                return r_
         if isinstance(recv, Obj):
             if nm in recv.methods:
                 return recv.methods[nm]([self.ev(x, env) for x in args])
@@ -351,6 +398,8 @@ class Interp:
                 return self.ev(args[1], env)(recv[1]) if recv != NONE else A()
             if nm in ('copied', 'cloned'):
                 return recv
+        if isinstance(recv, dict) and '__struct__' in recv and self._inlinable(e.get('callee') or ''):
+            return self.local_call(e['callee'], [recv] + [self.ev(x, env) for x in args])
         if isinstance(recv, dict):
             if nm == 'get':
                 k_ = A()
@@ -515,6 +564,8 @@ class Interp:
                 return abs(recv)
             if nm == 'pow':
                 return recv ** A()
+        if self._inlinable(e.get('callee') or ''):
+            return self.local_call(e['callee'], [recv] + [self.ev(x, env) for x in args])
         raise NoEval('method .%s on %s' % (nm, type(recv).__name__))
 
     # ------------------------------------------------------------ statements
